@@ -35,3 +35,34 @@ pub assume_specification<'a>[ str::from_utf8 ](v: &'a [u8]) -> (r: core::result:
     ensures match r { Ok(s) => strb(s) == v@ && is_utf8(v@), Err(_) => !is_utf8(v@) };
 /// Chars::count: the number of characters (nothing is said about how it relates to the BYTE length: at most it)
 pub assume_specification<'a>[ <core::str::Chars<'a> as core::iter::Iterator>::count ](c: core::str::Chars<'a>) -> (r: usize);
+
+// ---- SHA-224 and hex encoding (Trojan credential: the lower-case hex of SHA-224(password)) ----
+pub uninterp spec fn sha224(x: Seq<u8>) -> Seq<u8>;
+#[verifier::external_body]
+pub broadcast proof fn axiom_sha224_len(x: Seq<u8>) ensures #[trigger] sha224(x).len() == 28 {}
+/// lower-case hexadecimal text of a byte string
+pub uninterp spec fn hexenc(x: Seq<u8>) -> Seq<u8>;
+#[verifier::external_body]
+pub broadcast proof fn axiom_hexenc(x: Seq<u8>) ensures #[trigger] hexenc(x).len() == 2 * x.len(), is_ascii_seq(hexenc(x)), unhex(hexenc(x)) == Some(x) {}
+/// sha2::Sha224 (TRUSTED)
+#[verifier::external_body]
+pub struct Sha224 { _h: u8 }
+#[verifier::external_body]
+pub struct Digest224 { _d: u8 }
+impl Digest224 { pub uninterp spec fn bytes(&self) -> Seq<u8>; }
+impl core::convert::From<Digest224> for [u8; 28] {
+    #[verifier::external_body]
+    fn from(d: Digest224) -> (r: [u8; 28]) ensures r@ == d.bytes() { unimplemented!() }
+}
+impl Sha224 {
+    pub uninterp spec fn acc(&self) -> Seq<u8>;
+    #[verifier::external_body]
+    pub fn new() -> (r: Sha224) ensures r.acc() == Seq::<u8>::empty() { unimplemented!() }
+    #[verifier::external_body]
+    pub fn update(&mut self, data: &[u8]) ensures final(self).acc() == old(self).acc() + data@ { unimplemented!() }
+    #[verifier::external_body]
+    pub fn finalize(self) -> (r: Digest224) ensures r.bytes() == sha224(self.acc()) { unimplemented!() }
+}
+/// util.rs hex::encode (unsafe get_unchecked over a lookup table): ASSUMED to be lower-case hex
+#[verifier::external_body]
+pub fn hex__encode(bytes: &[u8]) -> (r: String) ensures sbytes(r) == hexenc(bytes@) { unimplemented!() }
